@@ -46,6 +46,9 @@ CHECKS = {
  "C05": dict(engine="H", tech=H, ref="DESIGN.md §3 C05",
    text="Breadth-first over all sequences (depth 5 quick / 7 thorough) of Set (7 option combinations) / Get (plain, remove-after-get, update-ttl) / Remove / Clear / clock advance over 3 keys on the real in-memory TTL cache for size 0..3 x default ttl 0/3 under a virtual clock, states merged on (complete implementation state, reference state); every answer plus a final probe of all keys on a replayed copy is checked against a nondeterministic 'expired = absent' reference with a one-sided eviction clause; the same histories on the in-memory and the redis-backed cache over an in-memory fake redis.Cmdable must agree step by step.",
    note="no clock reading falls exactly on a deadline (odd ttls, +2 s ticks); fake redis implements the seven commands used with expiry at now+duration; concurrent remove-after-get race is an engine-S scenario"),
+ "C17": dict(engine="I+H", tech=I+"; "+H, ref="DESIGN.md §3 C17",
+   text="Routing: shard counts 1..128, 211, 509, 1024, 4093 x every supported key type at its boundary values through SimpleIndex and XHashIndex (in range, stable across calls and instances, unsigned integers modulo shards) and SearchIndex on boundary probes (monotone, onto, spans 0..n-1). Containers: breadth-first over operation sequences on (sharded, unsharded) pairs of Map, LRU, tiny LRU, KeyLocker, TKeyLocker incl. multi-key calls, SemMap for 1,2,3,73 shards with modulo and xxhash routing; answers and hook-observed per-key state compared after every step.",
+   note="the 2^64 hash values between probes are covered by monotonicity only; LRU capacity chosen so the per-shard bound never binds; only non-blocking lock/semaphore calls; a HitGroup that is not a Bs is not routed through xxhash (undefined)"),
 }
 NA = {}
 
